@@ -109,6 +109,11 @@ pub enum Op {
     Debug,
     /// set relations against a second set built from these indices (sets only)
     Relations(Vec<u16>),
+    /// `clear` / `retain` / `retain_force` called with `Guard::unprotected()`: legal on a map that
+    /// only this thread can reach (everything retired is freed at once, so the operation must not
+    /// touch anything after retiring it)
+    ClearUnprotected,
+    RetainUnprotected(Pred, bool),
     /// insert a run of `n` consecutive key indices starting at `from` (shape template)
     Fill(u16, u16),
     /// remove a run
@@ -240,6 +245,7 @@ pub fn op_strategy(u: u16, set: bool) -> BoxedStrategy<Op> {
             3 => (0u8..3).prop_map(Op::Iterate),
             2 => k.clone().prop_map(Op::Index),
             1 => Just(Op::Debug),
+            1 => Just(Op::ClearUnprotected),
             6 => (0..u, 1u16..40).prop_map(|(a, n)| Op::Fill(a, n)),
             3 => (0..u, 1u16..40).prop_map(|(a, n)| Op::Drain(a, n)),
         ]
